@@ -5,6 +5,7 @@ import (
 	"bytes"
 	"crypto/sha1"
 	"encoding/base64"
+	"errors"
 	"fmt"
 	"net"
 	"net/http"
@@ -109,6 +110,8 @@ type c18Result struct {
 	err     error
 	headLen int
 	sent    int
+	// for responses the client must reject: did the client close its connection (EOF/RST seen within 3 s)?
+	checkedClose, clientClosed bool
 }
 
 // serve handles exactly one connection according to the script and reports what it saw.
@@ -173,6 +176,21 @@ func (sv *c18Server) serve(r *vf.Rand, rs *c18Resp, out chan<- c18Result, releas
 	}
 	if rs.closeAfter >= 0 {
 		return
+	}
+	if !rs.expectOK {
+		// a rejected handshake leaves nothing half-open: the client's end of this connection goes away
+		res.checkedClose = true
+		_ = conn.SetReadDeadline(time.Now().Add(3 * time.Second))
+		one := make([]byte, 1)
+		for {
+			_, rerr := br.Read(one)
+			if rerr == nil {
+				continue
+			}
+			var ne net.Error
+			res.clientClosed = !(errors.As(rerr, &ne) && ne.Timeout())
+			break
+		}
 	}
 	if len(rs.later) > 0 {
 		time.Sleep(2 * time.Millisecond)
@@ -266,6 +284,8 @@ func runC18(c *vf.Case) {
 	}
 	nh := r.Range(1, 4)
 	shape := ""
+	leftWriteInFlight := false
+	var sv2 *c18Server
 	for h := 0; h < nh && !c.Failed(); h++ {
 		rs := c18Script(r)
 		async := r.Bool()
@@ -300,6 +320,7 @@ func runC18(c *vf.Case) {
 		extraName := fmt.Sprintf("X-Client-%d", r.Intn(1000))
 		extraVal := string(asciiBytes(r, 8))
 		c.Logf("handshake %d: async=%v response=%s case=%d sep=%d extra=%d cuts=%v piggy=%d later=%d expect-accept=%v", h, async, rs.description, rs.nameCase, rs.sep, rs.extra, rs.cuts, len(rs.piggy), len(rs.later), rs.expectOK)
+		chained := false
 		out := make(chan c18Result, 1)
 		release := make(chan struct{})
 		go sv.serve(vf.NewRand(r.U64()), rs, out, release)
@@ -307,12 +328,54 @@ func runC18(c *vf.Case) {
 		var herr error
 		if async {
 			done := false
-			s.AsyncHandshake(url, func(e error) { herr = e; done = true }, websocket.ExtraHeader(true, extraName, extraVal))
+			// the usual reconnect idiom: the failure callback starts the next handshake on the same stream at once
+			chain := !rs.expectOK && rs.closeAfter < 0 && r.Bool()
+			var out2 chan c18Result
+			var release2 chan struct{}
+			var herr2 error
+			done2 := false
+			url2 := ""
+			if chain {
+				if sv2 == nil {
+					ln2, lerr := net.Listen("tcp", "127.0.0.1:0")
+					if lerr != nil {
+						c.Failf("harness-setup", "listen: %v", lerr)
+						return
+					}
+					defer ln2.Close()
+					sv2 = &c18Server{ln: ln2, port: ln2.Addr().(*net.TCPAddr).Port}
+				}
+				rs2 := &c18Resp{status: "HTTP/1.1 101 Switching Protocols", upgrade: "websocket", connection: "Upgrade", accept: "ok", closeAfter: -1, expectOK: true, order: []int{0}, description: "conforming"}
+				out2, release2 = make(chan c18Result, 1), make(chan struct{})
+				go sv2.serve(vf.NewRand(r.U64()), rs2, out2, release2)
+				url2 = fmt.Sprintf("ws://127.0.0.1:%d/again", sv2.port)
+			}
+			s.AsyncHandshake(url, func(e error) {
+				herr = e
+				done = true
+				if chain && e != nil {
+					s.AsyncHandshake(url2, func(e2 error) { herr2 = e2; done2 = true })
+				}
+			}, websocket.ExtraHeader(true, extraName, extraVal))
 			c.Bounded("asynchandshake-callback-never-invoked", 40*time.Second, func() {
-				for !done {
+				for !done || (chain && herr != nil && !done2) {
 					_ = ioc.RunOneFor(5 * time.Millisecond)
 				}
 			})
+			if chain {
+				c.Logf("  (the failure callback started the next handshake at once: err=%v state=%v)", herr2, s.State())
+				if herr != nil {
+					if herr2 != nil || s.State() != websocket.StateActive {
+						c.Failf("rehandshake-from-failure-callback-failed", "handshake %d failed as it must (%v); the handshake started from its callback against a conforming server returned %v, State()=%v", h, herr, herr2, s.State())
+					}
+					c.Count("handshakes_started_from_a_failure_callback", 1)
+				}
+				close(release2)
+				if herr != nil {
+					<-out2
+				}
+				chained = herr != nil
+			}
 		} else {
 			c.Bounded("handshake-never-returns", 40*time.Second, func() {
 				herr = s.Handshake(url, websocket.ExtraHeader(true, extraName, extraVal))
@@ -320,6 +383,10 @@ func runC18(c *vf.Case) {
 		}
 		accepted := herr == nil
 		c.Logf("  -> err=%v state=%v", herr, s.State())
+		if chained {
+			// the stream is now active on the second connection: close that session before the verdicts on the first
+			_ = s.CloseNextLayer()
+		}
 		c.Cover("response_class", rs.description[:min(len(rs.description), 40)]+"/"+segClass)
 		if accepted != rs.expectOK {
 			key := "accepted-a-response-that-must-be-rejected/" + rs.description
@@ -334,7 +401,7 @@ func runC18(c *vf.Case) {
 			}
 			c.Failf(key, "handshake %d (%s, header-name case %d, separator style %d, segmentation %s %v): returned err=%v, the acceptance predicate (status 101, Upgrade: websocket, Accept = base64(sha1(key+GUID))) says accept=%v", h, rs.description, rs.nameCase, rs.sep, segClass, rs.cuts, herr, rs.expectOK)
 		}
-		if !accepted && s.State() != websocket.StateTerminated {
+		if !accepted && !chained && s.State() != websocket.StateTerminated {
 			c.Failf("failed-handshake-not-terminated", "handshake %d failed with %v but State()=%v", h, herr, s.State())
 		}
 		if accepted && s.State() != websocket.StateActive {
@@ -374,9 +441,38 @@ func runC18(c *vf.Case) {
 				c.Count("messages_after_handshake_verified", 1)
 			}
 			c.Count("piggybacked_frames", len(rs.piggy))
+			// the write side of a re-used stream behaves like a fresh one too: a small asynchronous write completes,
+			// also when the previous session was torn down with a write still in flight
+			if !c.Failed() && (leftWriteInFlight || r.Bool()) {
+				wcalls := 0
+				var werr error
+				s.AsyncWrite([]byte("probe"), websocket.TypeText, func(e error) { wcalls++; werr = e })
+				for it := 0; it < 4000 && wcalls == 0; it++ {
+					_ = ioc.RunOneFor(time.Millisecond)
+				}
+				if wcalls != 1 || werr != nil {
+					c.Failf("write-after-handshake-does-not-complete", "handshake %d (previous session ended with a write in flight: %v): AsyncWrite of 5 bytes on the active stream: callback invoked %d times, err=%v, after 4000 loop iterations", h, leftWriteInFlight, wcalls, werr)
+				}
+				c.Count("write_probes_after_handshake", 1)
+				if leftWriteInFlight {
+					c.Count("write_probes_after_a_teardown_with_a_write_in_flight", 1)
+				}
+			}
+			leftWriteInFlight = false
+			if !c.Failed() && r.Chance(1, 3) {
+				// tear the session down with an asynchronous write started and its completion not yet delivered
+				s.AsyncWrite(asciiBytes(r, r.Range(1, 200)), websocket.TypeText, func(error) {})
+				leftWriteInFlight = true
+			}
 		}
 		close(release)
 		res := <-out
+		if res.checkedClose && !res.clientClosed {
+			c.Failf("failed-handshake-left-connection-open", "handshake %d (%s, async=%v, next handshake started from the failure callback: %v): the client rejected the response but the server saw neither EOF nor a reset on that connection within 3 s", h, rs.description, async, chained)
+		}
+		if res.checkedClose {
+			c.Count("rejected_handshakes_whose_connection_was_seen_closed", 1)
+		}
 		// the request as the server saw it
 		if len(res.request) > 0 {
 			c18CheckRequest(c, res, sv.port, extraName, extraVal, h)
@@ -442,7 +538,7 @@ func init() {
 	register(&vf.Check{
 		ID:        "C18",
 		Technique: "runtime monitor with the harness as a raw TCP server: request validation, acceptance predicate computed independently (own SHA-1/base64 path), scripted responses (status, header set/order/case/whitespace, wrong accept, truncation, segmentation) and piggy-backed wsref frames compared with what the client reads; bounded-progress probes for lost bytes",
-		Rule: "cases = 1-4 consecutive handshakes on one Stream (blocking and asynchronous), each against a scripted response: status {101, 101 with other text, 200, 400}, Upgrade {websocket in 3 spellings, other, absent}, Connection present/absent, Accept {correct, wrong, of another key, missing}, 0-3 extra headers, header order permuted, header-name case {canonical, lower, upper}, separator {': ', ':', ':   ', trailing blanks}, response+frames sent whole / cut at 1-2 random offsets / cut exactly at the blank line / cut inside the CRLF CRLF, server closing after k bytes, 0-3 frames piggy-backed and 0-2 sent later; " +
+		Rule: "cases = 1-4 consecutive handshakes on one Stream (blocking and asynchronous), each against a scripted response: status {101, 101 with other text, 200, 400}, Upgrade {websocket in 3 spellings, other, absent}, Connection present/absent, Accept {correct, wrong, of another key, missing}, 0-3 extra headers, header order permuted, header-name case {canonical, lower, upper}, separator {': ', ':', ':   ', trailing blanks}, response+frames sent whole / cut at 1-2 random offsets / cut exactly at the blank line / cut inside the CRLF CRLF, server closing after k bytes, 0-3 frames piggy-backed and 0-2 sent later; after an accepted handshake optionally a small AsyncWrite that must complete, and one session in three is torn down with an asynchronous write still in flight; " +
 			"every case is non-trivial; distinct = sequence of (response class, segmentation, API)",
 		Assumptions: []string{
 			"acceptance = status 101 AND Upgrade: websocket (case-insensitive) AND Sec-WebSocket-Accept = base64(sha1(key+GUID)), exactly as the statement lists; the Connection response header is not part of it",
